@@ -17,6 +17,7 @@ PROPERTY_ID = "C10"
 LEVEL = "translation_validation"
 MAX_EXHAUSTIVE_VARS = 18
 N_SAMPLES = 2000
+MAX_FORMULA_NODES = 120
 RULE = ("Instances = CNFs produced by the real pipeline from pbt.gen.programs.programs() (default shape and "
         "max_preds=3/2 for frequent recursion), with and without propagate_evidence: LogicFormula -> LogicDAG -> CNF, "
         "including trivial CNFs (no clause) and CNFs whose query/evidence literals occur in no clause; a second generator "
@@ -38,6 +39,7 @@ ASSUMPTIONS = [
     "(it multiplies/adds child weights and sets one literal weight of the queried atom to zero), so it relies on "
     "dsharp's -smoothNNF output being smooth and on every weighted/labelled variable occurring below the root; the "
     "latter is checked separately ('root mentions every CNF variable' is also recorded as a feature)",
+    "programs whose ground formula has more than 120 nodes are skipped before cycle breaking (inconclusive 'oversize')",
     "for CNFs with more than 18 variables determinism and equivalence are checked on 2000 assignments and by model "
     "count instead of exhaustively (class 'sampled')",
 ]
@@ -52,6 +54,8 @@ def _pipeline(src, propagate):
     try:
         with plrun.captured_output():
             lf = LogicFormula.create_from(PrologString(src), propagate_evidence=propagate)
+            if len(lf) > MAX_FORMULA_NODES:
+                return ("oversize", None)  # cycle breaking is exponential on large SCCs
             dag = LogicDAG.create_from(lf)
             cnf = CNF.create_from(dag)
         return ("ok", cnf)
@@ -101,6 +105,8 @@ def check(case):
     feats = set(gp.features(prog))
     src = sem.render_program(prog)
     st_, cnf = _pipeline(src, propagate)
+    if st_ == "oversize":
+        return Outcome(inconclusive="oversize", features=sorted(feats))
     if st_ != "ok":
         return Outcome(features=sorted(feats), classes=[cnf])
     sample = {"program": src, "propagate_evidence": propagate}
@@ -400,7 +406,7 @@ KNOWN_CLASSES = {}
 
 SUBCHECKS = [
     SubCheck("compile", check, strategy=_strategy, budget={"quick": 1000, "thorough": 40000},
-             timeout={"quick": 15, "thorough": 40}, render=render),
+             timeout={"quick": 6, "thorough": 30}, render=render),
     SubCheck("absent_literals", check, strategy=_strategy_small, budget={"quick": 300, "thorough": 8000},
-             timeout={"quick": 15, "thorough": 40}, render=render),
+             timeout={"quick": 6, "thorough": 30}, render=render),
 ]
